@@ -35,12 +35,17 @@ for d in sorted(glob.glob(os.path.join(here, "seeded", "C*-m*"))):
     dj = os.path.join(d, "detect.json")
     if os.path.exists(dj):
         h = json.load(open(dj))
-        parts = []
-        for i, e in enumerate(h):
-            parts.append(("yes: " + e["first_report"][:160]) if e["detected"] else "MISSED")
-        det = " -> ".join(parts) if len(parts) > 1 else parts[0]
-        if len(parts) > 1:
-            det = "first run " + det + " (after strengthening)"
+        def st(e):
+            return ("yes: " + e["first_report"][:160]) if e["detected"] else "MISSED"
+        first, last = h[0], h[-1]
+        if len(h) == 1 or (first["detected"] and last["detected"]):
+            det = st(last)
+        elif not first["detected"] and last["detected"]:
+            det = "first run MISSED -> after strengthening " + st(last)
+        else:
+            det = "first run " + st(first) + " -> latest run " + st(last)
+    if meta.get("retired"):
+        det = "RETIRED: " + meta["retired"] + ((" (earlier: " + det + ")") if det else "")
     rows.append("| %s | %s | %s | %s | %s | %s |" % (name, meta.get("property", name[:3]), esc(meta.get("summary", ""))[:300], esc(meta.get("needs_to_manifest", ""))[:300], conf, esc(det)))
 seeded = "\n".join(rows)
 
